@@ -165,7 +165,7 @@ RecvGraft(p) ==
              ELSE IF p \in direct
                THEN /\ reply /\ UNCHANGED <<mesh, backoff>>
                     /\ rf' = [NoRf EXCEPT !.app = app, !.p = p]
-             ELSE IF inBo
+             ELSE IF inBo /\ ~(Bug = "scoreFirst" /\ score[p] < 0)   \* scoreFirst: a later refusal branch hoisted before the backoff check
                THEN /\ reply /\ UNCHANGED mesh
                     /\ backoff' = [backoff EXCEPT ![p] = AddBo(@, now + PruneBackoff)]
                     /\ rf' = [app |-> app, p |-> p, flood |-> flood, kind |-> kind[p], dpen |-> pen, pre |-> bo[p]]
